@@ -1404,6 +1404,10 @@ def target_worker_thread(host: str, port: int, shared_aconf: AuditConf) -> Tuple
     except Exception:
         ret = -1
         string_output = "An exception occurred while scanning %s:%d:\n%s" % (host, port, str(traceback.format_exc()))
+    finally:
+        # Worker threads are re-used for other targets.  Drop this thread's copies of the algorithm databases (which the scan above annotated with this target's findings), so the next target starts from a clean copy.
+        SSH1_KexDB.thread_exit()
+        SSH2_KexDB.thread_exit()
 
     return ret, string_output
 
